@@ -42,7 +42,7 @@ Child(os, p, n) == IF \E c \in SeqRange(os[p].kids) : os[c].name = n
 Registered(w) == w \in SeqRange(reg[wires[w].parent])
 
 BInit ==
-    /\ objs = <<[parent |-> 0, name |-> "top", prim |-> FALSE, ins |-> <<>>, outs |-> <<>>, kids |-> <<>>]>>
+    /\ objs = <<[parent |-> 0, name |-> "top", prim |-> FALSE, ins |-> <<>>, outs |-> <<>>, ios |-> <<>>, kids |-> <<>>]>>
     /\ wires = <<>>
     /\ reg = <<<<>>>>
     /\ err = ""
@@ -67,7 +67,7 @@ NewChild(p, n, prim) ==
     /\ IF Child(objs, p, n) # 0
        THEN err' = "dupchild" /\ UNCHANGED <<objs, wires, reg>>
        ELSE /\ objs' = Append([objs EXCEPT ![p].kids = Append(@, Len(objs) + 1)],
-                              [parent |-> p, name |-> n, prim |-> prim, ins |-> <<>>, outs |-> <<>>, kids |-> <<>>])
+                              [parent |-> p, name |-> n, prim |-> prim, ins |-> <<>>, outs |-> <<>>, ios |-> <<>>, kids |-> <<>>])
             /\ reg' = Append(reg, <<>>)
             /\ err' = ""
             /\ UNCHANGED wires
@@ -87,6 +87,18 @@ AddOut(b, w) ==
        THEN err' = "twodrivers" /\ UNCHANGED <<objs, wires, reg>>     \* the port is not appended
        ELSE /\ objs' = [objs EXCEPT ![b].outs = Append(@, w)]
             /\ wires' = IF objs[b].prim THEN [wires EXCEPT ![w].source = b] ELSE wires
+            /\ err' = ""
+            /\ UNCHANGED reg
+
+\* an in/out port (Logic.addInOut): a primitive registers as source AND as sink of the wire; on an ordinary wire that already
+\* has a driver the call raises before anything is registered.  A structural block only keeps the port.
+AddInOut(b, w) ==
+    /\ Len(objs[b].ins) + Len(objs[b].outs) + Len(objs[b].ios) < MaxPorts
+    /\ Tick
+    /\ IF objs[b].prim /\ wires[w].source # 0
+       THEN err' = "twodrivers" /\ UNCHANGED <<objs, wires, reg>>
+       ELSE /\ wires' = IF objs[b].prim THEN [wires EXCEPT ![w].source = b, ![w].sinks = Append(@, b)] ELSE wires
+            /\ objs' = [objs EXCEPT ![b].ios = Append(@, w)]
             /\ err' = ""
             /\ UNCHANGED reg
 
@@ -125,6 +137,7 @@ BNext ==
        \/ \E p \in Objs, n \in Names, pr \in BOOLEAN : NewChild(p, n, pr)
        \/ \E b \in Objs, w \in WireIds : AddIn(b, w)
        \/ \E b \in Objs, w \in WireIds : AddOut(b, w)
+       \/ \E b \in Objs, w \in WireIds : AddInOut(b, w)
        \/ \E w \in WireIds, n \in Names : Rename(w, n)
        \/ \E w \in WireIds, p \in Objs : Reparent(w, p)
        \/ \E w \in WireIds, p \in Objs, n \in Names : ReparentAndRename(w, p, n)
@@ -135,7 +148,7 @@ UniqueWireNames == \A p \in Objs : \A x, y \in 1..Len(reg[p]) : x # y => wires[r
 UniqueChildNames == \A p \in Objs : \A x, y \in 1..Len(objs[p].kids) : x # y => objs[objs[p].kids[x]].name # objs[objs[p].kids[y]].name
 RegConsistent == \A p \in Objs : \A w \in SeqRange(reg[p]) : wires[w].parent = p
 SourceIsDriver == \A w \in WireIds : wires[w].source # 0 =>
-                      objs[wires[w].source].prim /\ w \in SeqRange(objs[wires[w].source].outs)
+                      objs[wires[w].source].prim /\ w \in SeqRange(objs[wires[w].source].outs) \cup SeqRange(objs[wires[w].source].ios)
 
 \* action properties
 SingleDriver == [][\A w \in WireIds : wires[w].source # 0 => wires'[w].source = wires[w].source]_bvars
